@@ -97,6 +97,11 @@ func (fv *FuncVerifier) call(st *State, instr ssa.Instruction, cc *ssa.CallCommo
 	if cc.IsInvoke() {
 		recv := st.get(cc.Value)
 		name := ifaceMethodName(cc)
+		if recv.Guard != nil {
+			// invoking a callback stored in a guarded field: exclusive lock required, so that the
+			// callback is never entered concurrently
+			fv.guardInvoke(st, recv.Guard, cc.Method.Name(), pos)
+		}
 		if c := fv.db.Funcs[name]; c != nil {
 			pn := []string{"self"}
 			for i := 0; i < sig.Params().Len(); i++ {
@@ -133,6 +138,13 @@ func (fv *FuncVerifier) call(st *State, instr ssa.Instruction, cc *ssa.CallCommo
 		clo = v.Clo
 	}
 	if callee == nil {
+		if nt, ok := cc.Value.Type().(*types.Named); ok && nt.Obj().Pkg() != nil {
+			// a function value of a named func type from an assumed-pure package (context.CancelFunc)
+			if pp := fv.db.purePrefixOf(nt.Obj().Pkg().Path() + "." + nt.Obj().Name()); pp != "" {
+				fv.enc.assumedUsed["function values of type "+nt.Obj().Pkg().Path()+"."+nt.Obj().Name()+" do not modify the tracked state (assumed pure)"] = true
+				return fv.freshResult(st, "dyn", sig), true
+			}
+		}
 		fv.enc.havocAllCalls["dynamic call "+fv.valName(cc.Value)] = true
 		st.havocAll()
 		return fv.freshResult(st, "dyn", sig), true
@@ -407,6 +419,11 @@ func (fv *FuncVerifier) havocClause(st *State, env *Env, old *State, e SExpr, ci
 			a := st.heapArr("M_content", SArr)
 			st.setHeap("M_content", Store(a, mv.L[0], fv.enc.fresh("mapver", SInt)))
 			return
+		case "anything":
+			// arbitrary effects on the heap (concurrent/unknown code), but the calling
+			// goroutine's lock set is as before
+			st.havocAllKeepLocks()
+			return
 		}
 	case *SIdent:
 		// region name or captured variable
@@ -435,6 +452,9 @@ func (fv *FuncVerifier) havocClause(st *State, env *Env, old *State, e SExpr, ci
 }
 
 func (fv *FuncVerifier) prefixOfTypeField(env *Env, tf string) string {
+	if strings.HasPrefix(tf, "ghost:") {
+		return "GH_" + tf[6:]
+	}
 	i := strings.LastIndex(tf, ".")
 	if i < 0 {
 		env.fail("expected Type.field, got %q", tf)
@@ -557,6 +577,10 @@ func modClausePrefixes(enc *Enc, fn *ssa.Function, c *FuncContract, e SExpr) ([]
 			env := &Env{enc: enc, pkg: enc.pkgByPath(c.Pkg), nb: &enc.nfresh}
 			var out []string
 			for _, tf := range fields {
+				if strings.HasPrefix(tf, "ghost:") {
+					out = append(out, "GH_"+tf[6:])
+					continue
+				}
 				i := strings.LastIndex(tf, ".")
 				t := env.resolveType(tf[:i])
 				out = append(out, "H_"+typeKey(t)+"."+tf[i+1:])
@@ -780,6 +804,25 @@ func (fv *FuncVerifier) postEnv(st *State, results []Value) *Env {
 	for _, fvv := range fv.fn.FreeVars {
 		if cv, ok := st.cells[fvv]; ok {
 			vars[fvv.Name()] = cv
+		}
+	}
+	// local variables that exist at this return (usable under bound(x)); parameters and
+	// results keep their names
+	for name, allocs := range fv.nameCells {
+		if _, taken := vars[name]; taken {
+			continue
+		}
+		var pick *ssa.Alloc
+		for _, a := range allocs {
+			if _, live := st.cells[a]; !live {
+				continue
+			}
+			if pick == nil || st.allocSeq[a] > st.allocSeq[pick] {
+				pick = a
+			}
+		}
+		if pick != nil {
+			vars[name] = st.cells[pick]
 		}
 	}
 	oldVars := map[string]Value{}
